@@ -1,6 +1,7 @@
 """C08 - prioritized replay samples proportionally and tracks priorities correctly.
 
 spec/RingPrio.tla (LAP, PrioritizedReplayBuffer, multi-task wrapper),
+spec/RingPrioTicks.tla + harness/c08_extra.py (boundary variates of the inverse-CDF samplers),
 spec/Subtraj.tla with PRIO (prioritized subtrajectory buffer),
 spec/PrioFn.tla (order predicates on recorded tables of the priority functions
 and importance weights).
@@ -12,14 +13,14 @@ import os
 
 import numpy as np
 
-from .. import bufkit, exact, graph, tlc
+from .. import bufkit, c08_extra, exact, graph, tlc
 from .. import subtraj_bind as sb
 from ..graph import Mismatch
 
 LEVEL = "model_checking"
 MANIFEST = dict(
     category="model_checking",
-    text="RingPrio.tla / Subtraj.tla (PRIO) model add / sample / update-priority / reset-max with natural-number priorities in units of 1 and of 1/2 of the initial tracked maximum (update values below and above it; resets and additions with every stored priority below 1.0 are reachable and counted); TLC checks Proportional (each slot is selected by exactly prio*mask of the Total ticks), OnlyFilled/NeverMasked, MaxDominates, NewGetsMax, NewAfterReset, UpdateFrame, ResetExact and the importance-weight laws on the complete bounded state graph; every transition (every tick vector of every reachable priority vector) is replayed into LAP, PrioritizedReplayBuffer (stratified), SubtrajectoryReplayBufferPER and the multi-task wrapper with a scripted generator, comparing selected indices, rows, priority arrays, tracked maximum and beta=1 weights. Order clauses for lap_priority / per_priority / general-beta weights are decided by TLC on float32 ordinals of recorded tables.",
+    text="RingPrio.tla / Subtraj.tla (PRIO) model add / sample / update-priority / reset-max with natural-number priorities in units of 1 and of 1/2 of the initial tracked maximum (update values below and above it; resets and additions with every stored priority below 1.0 are reachable and counted); TLC checks Proportional (each slot is selected by exactly prio*mask of the Total ticks), OnlyFilled/NeverMasked, MaxDominates, NewGetsMax, NewAfterReset, UpdateFrame, ResetExact and the importance-weight laws on the complete bounded state graph; every transition (every tick vector of every reachable priority vector) is replayed into LAP, PrioritizedReplayBuffer (stratified), SubtrajectoryReplayBufferPER and the multi-task wrapper with a scripted generator, comparing selected indices, rows, priority arrays, tracked maximum and beta=1 weights. Order clauses for lap_priority / per_priority / general-beta weights are decided by TLC on float32 ordinals of recorded tables. RingPrioTicks.tla decides, per priority vector (1..24 equal priorities, unequal and masked vectors, units 1, 1/2, 1/10), the admissible index set of every boundary variate class (largest doubles below 1, smallest positive variates, 0, +-ulps around every cumulative boundary, every tick; strata ends of the stratified sampler); the doubles are fed through the generator stub into LAP / PrioritizedReplayBuffer.sample_batch, the multi-task wrapper and the masked sampler methods.",
     note="priorities 1..3 and 0.5, 1.0, 1.5, N<=4, batch<=2 (float priorities of widely different magnitude are outside the model); uniform variates represented by half-integer ticks; trusted: harness/bufkit.py, stub generator, ordinal coding, TLC",
     technique="TLA+ spec + TLC exhaustive state graph; transition-coverage replay with scripted uniform variates; TLC-evaluated order predicates on recorded function tables",
 )
@@ -134,7 +135,16 @@ def project(ad: PrioAdapter):
         bufs[str(t)] = {"store": store, "prio": pr, "ins": ins, "len": ln, "maxPrio": int(mp) if mp == int(mp) else mp, "sampled": sampled}
     if ad.k > 1:
         sel, active = int(ad.obj.selected_task), sorted(int(x) for x in ad.obj.active_buffers)
-        st = int(getattr(ad.obj, "sampled_task_idx", -1))
+        # the wrapper's record of the task of the last batch; "no batch yet" (the model's -1) is an absent attribute in the
+        # code under test - any other way of saying so (None) is the same abstract state, anything else is shown as it is
+        st = getattr(ad.obj, "sampled_task_idx", None)
+        if st is None:
+            st = -1
+        else:
+            try:
+                st = int(st)
+            except (TypeError, ValueError):
+                raise Mismatch(f"sampled_task_idx is {st!r}: not a task index", code="sampled_task_record")
     else:
         sel, active, st = 0, ([0] if ad.cnt > 0 else []), ad.last_task
     return {"bufs": bufs, "sel": sel, "active": active, "sampledTask": st, "cnt": ad.cnt}
@@ -145,6 +155,8 @@ def _job(which, args):
         return sb.config_job(*args)
     if which == "canary":
         return canary_job(*args)
+    if which == "ticks":
+        return c08_extra.ticks_job(*args)
     return ring_job(*args)
 
 
@@ -193,7 +205,7 @@ def _reset_canary(G, kind, k, n, unit, bind=True):
     return len(targets)
 
 
-def canary_job(subtraj_cfgs, workers=4):
+def canary_job(subtraj_cfgs, workers=4, mt_cfgs=()):
     """Deviation and reachability canaries (small TLC runs); returns the list of failures (empty = fine)."""
     bad = []
     base = dict(K=1, N=2, MaxAdds=4, PrioVals={1, 3}, MaxBatch=1, STRAT=False, EMIT=False)
@@ -215,6 +227,17 @@ def canary_job(subtraj_cfgs, workers=4):
     r = tlc.run("RingPrio", tlc.cfg_text(constants=c2, invariants=["NoResetAllAbove"]), workers=workers, tag="rpreach")
     if r.violated != "NoResetAllAbove":
         bad.append("canary: no reset of a full buffer with every priority above the initial maximum reachable ({1,3}/2)")
+    # multi-task: a reset that recomputes only the task of the last batch must be refuted, and the history that tells it
+    # apart (a task other than the last sampled one whose tracked maximum went stale since the previous reset) must be
+    # reachable in every multi-task lattice the replay uses
+    for k, n, m, b, unit in mt_cfgs:
+        c3 = dict(K=k, N=n, MaxAdds=m, PrioVals={1, 3}, MaxBatch=b, STRAT=False, EMIT=False, **_default(unit))
+        r = tlc.run("RingPrio", tlc.cfg_text(next="NextBadResetLast", constants=c3, invariants=["ResetExact"]), workers=workers, tag="rpbadl")
+        if r.violated != "ResetExact":
+            bad.append(f"canary: ResetMaxLastSampled not refuted by ResetExact (K={k} N={n} adds<={m} unit={unit}: {r.violated})")
+        r = tlc.run("RingPrio", tlc.cfg_text(constants=c3, properties=["NoResetStaleOther"]), workers=workers, tag="rpreach")
+        if not r.violated:
+            bad.append(f"canary: no reset while another task than the last sampled one tracks a stale maximum reachable (K={k} N={n} adds<={m} unit={unit})")
     # the prioritized subtrajectory buffer: every configuration with unit > 1 must reach a reset below the initial maximum
     for n, h, m, b, unit in subtraj_cfgs:
         c = dict(N=n, H=h, MaxAdds=m, PRIO=True, PrioVals={1, 3}, MaxBatch=b, EMIT=False, PrioDefault=tlc.Subst(f"PrioDefault{unit}"))
@@ -315,7 +338,9 @@ def run(rep):
     rep.rule = (
         "TLC enumerates the bounded state graph of RingPrio / Subtraj(PRIO) incl. every tick vector (uniform variate class) of every reachable "
         "priority vector, over whole-number priorities and over a lattice with values below and above the initial maximum 1.0 (resets with every "
-        "stored priority below it are counted); each transition is replayed into the real buffers; non-trivial = pre-state has at least one stored transition"
+        "stored priority below it are counted); each transition is replayed into the real buffers; non-trivial = pre-state has at least one stored transition; "
+        "RingPrioTicks: per priority vector (equal priorities of every size, unequal, masked) TLC tabulates the variate classes at 0, 1, every cumulative boundary "
+        "(+- ulps) and every tick with the admissible index set; each class is fed as a double through the generator stub into the plain and the stratified sampler"
     )
     ev = nt = 0
     # (kind, K, N, adds, batch, stratified, unit): unit 1 = whole-number priorities 1..3 (initial maximum 1 is the smallest
@@ -335,7 +360,9 @@ def run(rep):
     sjobs = [(n, h, m, True, (1, 3), b, tuple(sb.INV_C04 + sb.INV_C08), f"(C08, priorities [1, 3]/{unit})", False, rep.seed, 4, False, unit, tuple(sb.PROPS_C08))
              for n, h, m, b, unit in scfgs]
     # the pool hands the jobs out in this order: the subtrajectory replays are the longest
-    alljobs = [("subtraj", j) for j in sjobs] + [("canary", ([c for c in scfgs if c[4] > 1], 4))] + [("ring", j) for j in jobs]
+    mt_cfgs = sorted({(k, n, m, b, unit) for kind, k, n, m, b, strat, unit in cfgs if k > 1})
+    tjob = (c08_extra.QUICK if quick else c08_extra.THOROUGH, rep.seed, 4)
+    alljobs = [("subtraj", j) for j in sjobs] + [("ticks", tjob), ("canary", ([c for c in scfgs if c[4] > 1], 4, mt_cfgs))] + [("ring", j) for j in jobs]
     outs = par.pmap(_job, alljobs, procs=8)
     below = 0
     for o in outs:
@@ -344,6 +371,8 @@ def run(rep):
                 raise tlc.MachineryError("; ".join(o["canary"]))
             continue
         below += o.get("resets_below", 0)
+        if "ticks" in o:
+            rep.extra["boundary_variates"] = o["ticks"]
         r = sb.merge(rep, o)
         if r:
             ev += r[0]
@@ -371,6 +400,7 @@ def run(rep):
     rep.evaluations, rep.distinct, rep.exhaustive = ev, nt, True
     rep.assumptions += [
         "priorities are small multiples of 1 or of 1/2 (exact in binary floating point); proportionality for float priorities spanning many orders of magnitude is not decided",
+        "boundary variates (RingPrioTicks): variates on the generator's grid k*2**-53 (what numpy's uniform returns), within a few ulp of 0, 1 and every cumulative boundary, priorities in units of 1, 1/2, 1/10; within a few ulp of the boundary of two positive strata either neighbour is accepted (measure <= 2^-50, no effect on p_i/sum p); the variates 0.0 and 5e-324 only have to stay inside the filled region",
         "beta=1 weights compared with rtol 1e-12 (four float64 operations); general beta only by order predicates on float32-rounded ordinals (monotone rounding)",
         "lap/per priority values only for alpha=1 (exact); other alpha by positivity/monotonicity on ordinals",
     ]
@@ -382,6 +412,11 @@ def replay(path, rep):
         return 0
     if "H" in d:
         return sb.replay(path, "C08")
+    if "ticks" in d:
+        rc = c08_extra.replay(d["ticks"])
+        if rc:
+            print("VIOLATION property=C08 replay=" + path)
+        return rc
     if "tables" in d:
         r = _check_tables(rep, d["tables"])
         print("tables ok" if r.ok else f"VIOLATION property=C08 replay={path}")
